@@ -15,9 +15,9 @@ from . import c01
 ID = "C07"
 RULE = (
     "histories over a pool of 1-3 grids (hull / Voronoi / lat-lon / solid meshes, mixed sizes, partial or global; built from "
-    "lon/lat topology arrays, from Cartesian face vertices, or from an MPAS-like source carrying its own tables): 1-8 steps, "
+    "lon/lat topology arrays (C-ordered, Fortran-ordered, transposed or strided views), from Cartesian face vertices, from an MPAS-like source carrying its own tables, or read from a SCRIP source (face rows padded by a repeated corner)): 1-8 steps, "
     "each either materialising one lazily derived quantity on one grid (15 kinds incl. edges, centres, areas, bounds, "
-    "distances) or encoding one grid to 'ugrid' / 'exodus' / 'scrip' (to_xarray or encode_as), optionally through a NetCDF "
+    "distances), replacing a grid by the re-opened result of one of its encodings (conversion chains), or encoding one grid to 'ugrid' / 'exodus' / 'scrip' (to_xarray or encode_as), optionally through a NetCDF "
     "file. After every encode: the result re-opened with ux.open_grid has the same faces (order kept for UGRID/SCRIP, multiset "
     "for Exodus); for UGRID every variable / coordinate / dimension named by the topology variable exists; the dataset can be "
     "Also tiny / micro patches (cells down to 2e-6 degrees, judged by the tolerance-free count of distinct corner nodes per face) and node tables with unused (orphan) entries. "
@@ -43,7 +43,7 @@ FORMATS = ["ugrid", "exodus", "scrip"]
 
 @st.composite
 def _gridspec(draw, big):
-    src = draw(sampled_from(["topology", "topology", "vertices-xyz", "mpas"]))
+    src = draw(sampled_from(["topology", "topology", "vertices-xyz", "mpas", "scrip"]))
     if src == "mpas":
         mesh = draw(meshgen.voronoi_mesh(6, 16 if big else 10, renumber=False))
     else:
@@ -59,7 +59,7 @@ def _gridspec(draw, big):
         mesh.pop("centers", None)
         if src == "topology" and draw(st.integers(0, 5)) == 0:
             mesh = meshgen.with_orphan_nodes(draw, mesh, draw(sampled_from([2, 9])))
-    return {"mesh": mesh, "source": src, "radius": draw(sampled_from([1.0, 1.0, 2.5, 6371229.0]))}
+    return {"mesh": mesh, "source": src, "radius": draw(sampled_from([1.0, 1.0, 2.5, 6371229.0])), "layout": draw(sampled_from(build.LAYOUTS)), "lon360": draw(st.booleans())}
 
 
 @st.composite
@@ -69,7 +69,11 @@ def _case(draw, tier):
     n = len(grids)
     steps = []
     for _ in range(draw(st.integers(1, 8))):
-        if draw(sampled_from([True, True, False])):
+        kind = draw(st.integers(0, 9))
+        if kind == 0:
+            # conversion chains: the grid is replaced by what one of the encoders + the reader make of it
+            steps.append(["reopen", draw(st.integers(0, n - 1)), draw(sampled_from(FORMATS))])
+        elif kind <= 6:
             steps.append(["enc", draw(st.integers(0, n - 1)), draw(sampled_from(FORMATS)), draw(sampled_from(["to_xarray", "to_xarray", "encode_as"])), draw(sampled_from([False, False, True]))])
         else:
             steps.append(["mat", draw(st.integers(0, n - 1)), draw(sampled_from(QUANTITIES))])
@@ -91,6 +95,8 @@ def classify(case):
         if s[0] == "mat":
             mat_seen.add(s[1])
             labs.append("mat:" + s[2])
+        elif s[0] == "reopen":
+            labs.append("reopen:" + s[2])
         else:
             labs.append("enc:" + s[2])
             if s[4]:
@@ -107,6 +113,8 @@ def classify(case):
             enc_seen.add(s[1])
     for g in case["grids"]:
         labs.append("source:" + g["source"])
+        if g["source"] == "topology" and g.get("layout", "C") != "C":
+            labs.append("layout:" + g["layout"])
     return sorted(set(labs)), nontrivial
 
 
@@ -114,7 +122,11 @@ def _build_grid(spec):
     ux = build.ux()
     mesh = spec["mesh"]
     if spec["source"] == "topology":
-        return build.grid_from_mesh(mesh)
+        return build.grid_from_mesh(mesh, layout=spec.get("layout", "C"))
+    if spec["source"] == "scrip":
+        # a grid read from a SCRIP source keeps the format's repeated-last-corner padding in its face rows
+        ds, _ = writers.scrip_dataset(mesh, {"lon360": bool(spec.get("lon360"))})
+        return ux.open_grid(ds)
     if spec["source"] == "vertices-xyz":
         INT_DTYPE, FILL = build.consts()
         xyz = meshgen.mesh_xyz(mesh) * spec.get("radius", 1.0)  # Cartesian sources need not be on the unit sphere
@@ -160,17 +172,28 @@ def run_case(case, ctx):
         expected.append([[tuple(xyz[i]) for i in f] for f in s["mesh"]["faces"]])
     mat_seen = set()
     enc_seen = set()
+    order_lost = set()  # grids that went through Exodus (which regroups faces by size): judged as multisets from then on
+    chain = {}
     for si, st_ in enumerate(case["steps"]):
         if st_[0] == "mat":
             _, gi, q = st_
             getattr(grids[gi], q)
             mat_seen.add(gi)
             continue
+        if st_[0] == "reopen":
+            _, gi, fmt = st_
+            grids[gi] = ux.open_grid(grids[gi].to_xarray(fmt))
+            chain[gi] = chain.get(gi, "") + ">" + fmt
+            if fmt == "exodus":
+                order_lost.add(gi)
+            continue
         _, gi, fmt, api, via_file = st_
         g = grids[gi]
         hist = ("after-mat" if gi in mat_seen else "fresh") + ("+after-other" if enc_seen - {gi} else "")
         mixed = len({len(f) for f in case["grids"][gi]["mesh"]["faces"]}) > 1
-        site = f"{fmt}:{case['grids'][gi]['source']}:{'mixed' if mixed else 'uniform'}:{hist}"
+        site = f"{fmt}:{case['grids'][gi]['source']}{chain.get(gi, '')}:{'mixed' if mixed else 'uniform'}:{hist}"
+        if case["grids"][gi]["source"] == "topology" and case["grids"][gi].get("layout", "C") != "C":
+            site += ":layout-" + case["grids"][gi]["layout"]
         enc_seen.add(gi)
         if api == "encode_as":
             ds = g.encode_as({"ugrid": "UGRID", "exodus": "Exodus", "scrip": "SCRIP"}[fmt])
@@ -182,7 +205,7 @@ def run_case(case, ctx):
         ctx.ev("roundtrip_faces")
         back = ux.open_grid(ds)
         if c01._standard_form(back, fails, site, ctx):
-            c01._faces_match(back, expected[gi], fails, site, ctx, as_multiset=(fmt == "exodus"))
+            c01._faces_match(back, expected[gi], fails, site, ctx, as_multiset=(fmt == "exodus" or gi in order_lost))
         # rename oracle for this property
         for f in fails[before:]:
             if f.oracle in ("faces_match", "standard_form"):
@@ -201,7 +224,7 @@ def run_case(case, ctx):
                 back2 = ux.open_grid(path)
                 b2 = len(fails)
                 if c01._standard_form(back2, fails, site + ":file", ctx):
-                    c01._faces_match(back2, expected[gi], fails, site + ":file", ctx, as_multiset=(fmt == "exodus"))
+                    c01._faces_match(back2, expected[gi], fails, site + ":file", ctx, as_multiset=(fmt == "exodus" or gi in order_lost))
                 for f in fails[b2:]:
                     f.oracle = "roundtrip_faces"
                 del back2
